@@ -7,7 +7,7 @@
    of [cfg] are the places where the pinned and the current tree differ;
    [fixed_cfg] is the current tree (validated behaviourally on every run by the
    scenario correspondence), [pinned_cfg] the tree before the fix commits. *)
-From G Require Import Base Sys SysProofs SysProps SysTerm.
+From G Require Import Base Sys SysProofs SysProps SysTerm SysFinal.
 Open Scope nat_scope.
 
 Theorem C11_no_client_needed : forall cfg s, stop_interrupts cfg = true -> add_before_accept cfg = true ->
@@ -71,3 +71,13 @@ Theorem C11_pinned_refuted : exists s, run_labels pinned_cfg init
             step pinned_cfg s (LConn 0) = None.
 Proof. exact stop_progress_pinned_refuted. Qed.
 Print Assumptions C11_pinned_refuted.
+
+(* Stop's interrupt is final: no step of anything - the connection's loop, a handler, a
+   client, Run, another Stop - makes an interrupted connection uninterrupted again, over
+   any continuation of the run.  (In the source: nothing but interrupt() and the accept-time
+   timeouts sets a deadline; the deadline sites are counted by `vh cfgflags`, CfgTie.v.) *)
+Theorem C11_interrupt_is_final : forall cfg ls s s' i c,
+  run_labels cfg s ls = Some s' -> conn_of s i c -> interrupted c = true ->
+  exists c', conn_of s' i c' /\ interrupted c' = true.
+Proof. exact interrupt_is_final_run. Qed.
+Print Assumptions C11_interrupt_is_final.
